@@ -19,6 +19,7 @@
 size_t g_n;
 size_t g_k;
 int g_t;
+int g_u;  /* second arbitrary token index, g_t < g_u: postconditions over every PAIR of tokens */
 
 /* parser invariant */
 /* The token array object has MAXT elements and num_tokens <= MAXT is symbolic: for num_tokens == MAXT the array
@@ -50,6 +51,13 @@ __CPROVER_assigns(*token)
 __CPROVER_ensures(token->type == type && token->start == start && token->end == end && token->size == 0)
 ;
 
+/* tokens are ordered by start and their extents are laminar (a later token lies behind an earlier closed one or
+ * strictly inside an earlier container; a string token's quotes belong to its extent): what Data::fromJSON walks on */
+#define TQ(t) ((t).type == JSMN_STRING ? 1 : 0)
+#define LAMINAR(a, b) ((a).end == -1 \
+  ? ((a).start < (b).start - TQ(b)) \
+  : (((a).end + TQ(a) <= (b).start - TQ(b)) || \
+     (((a).type == JSMN_OBJECT || (a).type == JSMN_ARRAY) && (a).start < (b).start - TQ(b) && (b).end != -1 && (b).end + TQ(b) < (a).end)))
 #define TOKEQ_OLD(toks, k) ((toks)[k].type == __CPROVER_old((toks)[k].type) && (toks)[k].start == __CPROVER_old((toks)[k].start) && (toks)[k].end == __CPROVER_old((toks)[k].end) && (toks)[k].size == __CPROVER_old((toks)[k].size))
 
 /* the next free token (index toknext, unchanged on failure) keeps its contents */
@@ -109,8 +117,13 @@ __CPROVER_ensures((__CPROVER_return_value == JSMN_SUCCESS && __CPROVER_old(parse
 __CPROVER_ensures((__CPROVER_return_value != JSMN_SUCCESS && (size_t)parser->toknext < num_tokens) ==> NEXT_UNTOUCHED(parser, tokens))
 ;
 
-/* token well-formed w.r.t. a position bound b: extents inside [0,b], open tokens have end == -1 */
-#define TOKWF(t, b) ((t).start >= 0 && (unsigned)(t).start <= (b) && ((t).end == -1 || ((t).start <= (t).end && (unsigned)(t).end <= (b))))
+/* token well-formed w.r.t. the consumed prefix [0,b): it begins inside it; an open token (end == -1) is a container; a
+ * closed token has its extent inside [0,b], is non-empty unless it is a string, and a string token is preceded by its
+ * opening and followed by its closing quote inside the prefix (so end >= 1 for every closed token) */
+#define TOKWF(t, b) ((t).start >= 0 && (unsigned)(t).start < (b) && \
+  ((t).end == -1 ? ((t).type == JSMN_OBJECT || (t).type == JSMN_ARRAY) \
+                 : ((t).start <= (t).end && (unsigned)(t).end <= (b) && \
+                    ((t).type == JSMN_STRING ? ((t).start >= 1 && (unsigned)(t).end < (b)) : (t).start < (t).end))))
 /* every allocated token's child count is bounded by the bytes consumed (so size++ cannot overflow) */
 #define SIZES(p, toks) __CPROVER_forall { int k; (0 <= k && k < MAXT) ==> (k < (p)->toknext ==> ((toks)[k].size >= 0 && (unsigned)(toks)[k].size <= (p)->pos)) }
 
@@ -121,8 +134,9 @@ __CPROVER_requires(__CPROVER_is_fresh(tokens, TOKENS_BYTES(num_tokens)))
 __CPROVER_requires(g_n <= MAXN && js[g_n] == 0 && num_tokens <= MAXT)
 __CPROVER_requires(PI(parser, num_tokens))
 __CPROVER_requires(SIZES(parser, tokens))
-__CPROVER_requires(0 <= g_t && g_t < MAXT)
+__CPROVER_requires(0 <= g_t && g_t < g_u && g_u < MAXT)
 __CPROVER_requires(g_t < parser->toknext ==> TOKWF(tokens[g_t], parser->pos))
+__CPROVER_requires(g_u < parser->toknext ==> (TOKWF(tokens[g_u], parser->pos) && LAMINAR(tokens[g_t], tokens[g_u])))
 __CPROVER_assigns(parser->pos, parser->toknext, parser->toksuper, __CPROVER_object_whole(tokens))
 __CPROVER_ensures(PI(parser, num_tokens))
 __CPROVER_ensures(parser->pos >= __CPROVER_old(parser->pos) && parser->toknext >= __CPROVER_old(parser->toknext))
@@ -130,6 +144,8 @@ __CPROVER_ensures(__CPROVER_return_value == JSMN_SUCCESS || __CPROVER_return_val
 __CPROVER_ensures(SIZES(parser, tokens))
 /* every token handed out so far has its extent inside the consumed input */
 __CPROVER_ensures(g_t < parser->toknext ==> TOKWF(tokens[g_t], parser->pos))
+/* every pair of tokens handed out so far is ordered and laminar */
+__CPROVER_ensures(g_u < parser->toknext ==> (TOKWF(tokens[g_u], parser->pos) && LAMINAR(tokens[g_t], tokens[g_u])))
 /* tokens not handed out are untouched: the zeroed sentinel Data::fromJSON relies on survives */
 __CPROVER_ensures(g_t >= parser->toknext ==> TOKEQ_OLD(tokens, g_t))
 /* success: whole input consumed and no token left open */
